@@ -117,6 +117,19 @@ func cmdFilter(args []string) *Result {
 				one(d, 2, k%3, true)
 			}
 		}
+		// directed families are large: one rejecting predicate per document (rotating), 'never' for every fourth
+		emitLight := func(doc []byte) {
+			if thorough {
+				emit(doc)
+				return
+			}
+			d := append([]byte(nil), doc...)
+			k++
+			one(d, []int{1, 5, 4}[k%3], k%3, true)
+			if k%4 == 0 {
+				one(d, 3, k%3, true)
+			}
+		}
 		// (A) the model's raw vectors, as an HTML block and as inline raw HTML
 		for _, path := range args[2:] {
 			forEachTLCRecord(path, func(raw []byte) {
@@ -160,14 +173,17 @@ func cmdFilter(args []string) *Result {
 		// (C) directed: an allowed tag whose inside holds quotes, '=', '/' and a second '<' in every arrangement, then a rejected
 		// tag, then a tail that could pair with the junk - where a scanner's idea of "the end of this tag" can drift from
 		// the tokenizer's (which ends every tag at the first '>' outside a quoted attribute VALUE)
-		opens := []string{"<div", "<b", "<a href"}
-		victims := []string{"<script>alert(1)</script>", "<STYLE>", "<iframe src=x>"}
-		tails := []string{"", " \"", " '>", "\">"}
+		opens := []string{"<div", "<a href"}
+		victims := []string{"<script>alert(1)</script>", "<STYLE>"}
+		tails := []string{"", " \"", "\">"}
 		maxJunk := 3
 		if thorough {
 			maxJunk = 4
+			opens = append(opens, "<b")
+			victims = append(victims, "<iframe src=x>")
+			tails = append(tails, " '>")
 		}
-		exhaustive([]string{" ", "\"", "'", "=", "x", "/", "<title", "\f"}, maxJunk, func(junk []byte) {
+		exhaustive([]string{" ", "\"", "'", "=", "x", "/", "<title", "\f", "<!--", ">", "=\">", "<!--\"", "<!x\""}, maxJunk, func(junk []byte) {
 			j := string(junk)
 			for oi, o := range opens {
 				for vi, v := range victims {
@@ -176,15 +192,19 @@ func cmdFilter(args []string) *Result {
 					}
 					for _, t := range tails {
 						line := o + j + "> " + v + t
-						emit([]byte(line + "\n"))
-						emit([]byte("x " + line + " y\n"))
+						emitLight([]byte(line + "\n"))
+						emitLight([]byte("x " + line + " y\n"))
+						if strings.Contains(j, "<!--") || strings.Contains(j, "\"") {
+							// the allowed tag and the rejected one as two separate inline tags with text between them
+							emitLight([]byte("x " + o + j + "> and " + v + t + " y\n"))
+						}
 					}
 				}
 			}
 		})
 		src.structured(thorough, func(d []byte) {
 			if bytes.IndexByte(d, '<') >= 0 {
-				emit(d)
+				emitLight(d)
 			}
 		})
 	}
